@@ -37,18 +37,19 @@ SPEC = dict(
     shards=16,
     extract=extract,
     rule=("a case = scenario (nothing run / break-on-start at the first node / suspended at top level / running (blocked in a "
-          "Go function) / suspended 1..3 calls deep / suspended by break-on-error / finished / finished with error / two threads) "
+          "Go function) / suspended 1..3 calls deep / suspended by break-on-error / the same with an ECAL map, a nested list+map, a non-finite number as error data / finished / finished with error / two threads) "
           "with or without a global scope, then 1..5 steps (command lines for HandleInput, or harness actions starting a thread / "
           "releasing running threads); lines = every command of DebugCommandsMap (+ an unknown one) x argument vectors from "
           "{valid/invalid/negative/huge/signed thread ids, known/unknown sources, well- and malformed source:line, identifiers, "
           "dotted paths, expressions, invalid UTF-8, case variants incl. U+0130}: exhaustive for <=1 argument over 38 values and "
-          "<=2 over 14 (quick) / 38 (thorough), structured products for extract/inject with 3, sampled for 3..4 and after random "
-          "histories. Compared: reply class (ok/error/PANIC/HANG/NOJSON) of every command incl. json.Marshal of the result, and "
+          "<=2 over 14 (quick) / 38 (thorough, scenarios with a global scope), structured products for extract/inject with 3, malformed "
+          "`inject` expressions on suspended threads, sampled for 3..4 and after random histories; plus a concurrent kind (cont from one "
+          "goroutine, break/rmbreak/disablebreak and status/describe from two others, 300 rounds, watchdog). Compared: reply class (ok/error/PANIC/HANG/NOJSON) of every command incl. json.Marshal of the result, and "
           "the class of a following `status` (time-bounded). Non-trivial = the last line names a command of the vocabulary."),
     exhaustive="all command lines with <=2 arguments over the stated argument values in every scenario",
     trusted_base=[
         "the abstract state handed to the model (thread table, call depths, visible names, lazily set references) is read from the real debugger through Status/Describe/LockState after every step; the model must explain every change by an evaluator event it allows",
-        "whether the expression of an `inject` evaluates without error is measured with the real parser/interpreter (oracle bit); Scope.SetValue on a dotted path may succeed or fail (both accepted: C05's domain)",
+        "whether the expression of an `inject` evaluates without error is measured with the real parser/interpreter (oracle bit); for an `inject` into a dotted container path ok and error are reported as one class (Scope.SetValue on paths is C05's domain)",
         "unicode.ToLower is modelled as: ASCII, U+0130 -> i, U+212A -> k, every other rune keeps a non-ASCII value",
     ],
     assumptions=[
